@@ -88,6 +88,14 @@ func init() {
 						var kv int64
 						fmt.Sscan(k.Val().String(), &kv)
 						ok := DominatedByExt(a.Instr, CmpCond(token.EQL, AnyV, IsConstInt(kv)))
+						if !ok {
+							// a guarded copy: if src.<same bit> { dst.<bit> = true }
+							for _, fam := range []struct{ typ, field string }{{"supportedExtensions", owner.field}, {"Association", "peer" + strings.ToUpper(owner.field[:1]) + owner.field[1:]}} {
+								if ff := c.P.Field(fam.typ, fam.field); ff != nil && DominatedByExt(a.Instr, BoolCond(IsLoadOf(ff), true)) {
+									ok = true
+								}
+							}
+						}
 						c.Check(ok, ks.key("bit-from-chunk-type:"+owner.field), c.Pos(a.Instr), "set under chunkType == "+wantConst[owner.field], owner.field+" is set for a chunk type other than "+wantConst[owner.field]+" ("+c.describeConds(a.Instr)+")")
 					}
 				}
